@@ -9,13 +9,16 @@
    Trees (second half of the file): labels live on the parent bond of every node (Model/TtnsQn.v on top of C11's
    Model/Ttns.v); sector containment, preservation by TTNS.add (with prefactor folding) / scale / TTNO.apply and the
    checker are proved for one-component labels and, for the checker, per component of vector labels.
-   PARTIAL: the tree gauge moves (push_cano_to_parent / child, compress_node, update_2site) have no label theorem --
-   their outputs are decided by the proved-sound tree checker; multi-component preservation theorems exist for chains
-   only.                                                                                                          *)
+   Third wave: label part of the tree gauge moves (push_cano_to_parent / push_cano_to_child = compress_node's split),
+   of update_2site (fixed a4feae3, both cano_parent cases) and of masked one-site updates, each relative to the svd_qn
+   block contract and lifted from the sub-tree where the move happens to the whole tree; tree masks (get_qnmat one- and
+   two-site) and multi-component corollaries.
+   PARTIAL: eigh_qn (state-averaged algorithms) is not modelled; the dense part of the factorisations (M = Q R etc.) is
+   C04 / C11's; truncation inside compress_node only selects columns, which the block contract covers.          *)
 From Coq Require Import ZArith List Arith Bool.
 Import ListNotations.
 From RV Require Import Base.CRing Base.BigSum Model.Chain Model.Mp Model.Qn Proofs.MpProofs Proofs.QnProofs
-  Model.QnMask Proofs.QnMaskProofs Model.Ttns Model.TtnsQn Proofs.TtnsQnProofs.
+  Model.QnMask Proofs.QnMaskProofs Model.Ttns Model.TtnsQn Proofs.TtnsQnProofs Proofs.TtnsQnMoves.
 Local Open Scope Z_scope.
 
 (* the semantic core: valid labels => no amplitude outside the sector *)
@@ -230,6 +233,105 @@ Theorem C06_ttns_validb_sound_multi : forall (R : CRing) (t : ttree R) nc (st : 
   ttns_qn_valid (smap (comp k) st) t (qmap (comp k) g) (comp k qtot).
 Proof. exact ttns_validbV_sound. Qed.
 Print Assumptions C06_ttns_validb_sound_multi.
+
+(* ---------------------------------------------------------------- trees, third wave: gauge moves, 2-site update, masks.
+   A move acts on the sub-tree u reached by [path] (Ttns.at_path, as C11's run_step); i = position of the child whose
+   parent bond is re-labelled; (lc pdc dc Tc ccs) / (qc gcs) / (sgc ssc) = that child's node, labels, charges. *)
+Theorem C06_ttns_push_parent_valid : forall (R : CRing) path i m (Q : tens R) V qnew (t : ttree R) g st qtot u gu su
+    lc pdc dc Tc ccs qc gcs sgc ssc,
+  ttns_qn_valid st t g qtot ->
+  subtree R path t = Some u -> qsubtree path g = Some gu -> ssubtree path st = Some su ->
+  nth_error (tch R u) i = Some (TNode lc pdc dc Tc ccs) -> nth_error (qch gu) i = Some (QNode qc gcs) ->
+  nth_error (sch su) i = Some (SNode sgc ssc) -> length qnew = m ->
+  (* column j of Q lives in the block whose label (children + physical of the child) is qnew[j] *)
+  (forall ks ph j, all_lt (map (tdim R) ccs) ks = true -> (j < m)%nat ->
+     sumlab gcs ks + sigsum sgc ph <> nth j qnew 0 -> Q ks ph j = r0 R) ->
+  (* the remainder only connects an old bond index with the same label *)
+  (forall a j, (a < dc)%nat -> (j < m)%nat -> nth a qc 0 <> nth j qnew 0 -> V a j = r0 R) ->
+  ttns_qn_valid st (at_path R path (push_parent R i m Q V) t) (qat_path path (qset_child i qnew) g) qtot.
+Proof. exact ttns_push_parent_valid. Qed.
+Print Assumptions C06_ttns_push_parent_valid.
+
+Theorem C06_ttns_push_child_valid : forall (R : CRing) path i m (U : list nat -> R) V qnew (t : ttree R) g st qtot u gu su
+    lc pdc dc Tc ccs qc gcs sgc ssc,
+  ttns_qn_valid st t g qtot ->
+  subtree R path t = Some u -> qsubtree path g = Some gu -> ssubtree path st = Some su ->
+  nth_error (tch R u) i = Some (TNode lc pdc dc Tc ccs) -> nth_error (qch gu) i = Some (QNode qc gcs) ->
+  nth_error (sch su) i = Some (SNode sgc ssc) -> length qnew = m ->
+  (* svd_qn block contract: (row label: other children + physical + (qntot - node label)) + (column label qnew) = qntot *)
+  (forall ks ph p, all_lt (map (tdim R) (replace_nth i (TNode lc pdc m Tc ccs) (tch R u))) ks = true -> (p < tdim R u)%nat ->
+     (sumlab (replace_nth i (QNode qnew gcs) (qch gu)) ks - nth (nth i ks O) qnew 0)
+       + sigsum (match su with SNode sg _ => sg end) ph + (qtot - nth p (qlab gu) 0) <> qtot - nth (nth i ks O) qnew 0 ->
+     U (move_to_end i (ks ++ ph ++ [p])) = r0 R) ->
+  (forall a j, (a < dc)%nat -> (j < m)%nat -> nth a qc 0 <> nth j qnew 0 -> V a j = r0 R) ->
+  ttns_qn_valid st (at_path R path (push_child R i m U V) t) (qat_path path (qset_child i qnew) g) qtot.
+Proof. exact ttns_push_child_valid. Qed.
+Print Assumptions C06_ttns_push_child_valid.
+
+(* TTNS.update_2site: node.qn = msqn (cano_parent) or qntot - msqn *)
+Theorem C06_ttns_two_site_update_valid : forall (R : CRing) path i m (Nn Pn : tens R) (cano : bool) (msqn : list Z) qnew
+    (t : ttree R) g st qtot u gu su lc pdc dc Tc ccs qc gcs sgc ssc,
+  ttns_qn_valid st t g qtot ->
+  subtree R path t = Some u -> qsubtree path g = Some gu -> ssubtree path st = Some su ->
+  nth_error (tch R u) i = Some (TNode lc pdc dc Tc ccs) -> nth_error (qch gu) i = Some (QNode qc gcs) ->
+  nth_error (sch su) i = Some (SNode sgc ssc) -> length msqn = m ->
+  qnew = (if cano then msqn else map (fun x => qtot - x) msqn) ->
+  (forall ks ph j, all_lt (map (tdim R) ccs) ks = true -> (j < m)%nat ->
+     sumlab gcs ks + sigsum sgc ph <> (if cano then nth j msqn 0 else qtot - nth j msqn 0) -> Nn ks ph j = r0 R) ->
+  (forall ks ph p, all_lt (map (tdim R) (replace_nth i (TNode lc pdc m Nn ccs) (tch R u))) ks = true -> (p < tdim R u)%nat ->
+     (sumlab (replace_nth i (QNode qnew gcs) (qch gu)) ks - nth (nth i ks O) qnew 0)
+       + sigsum (match su with SNode sg _ => sg end) ph + (qtot - nth p (qlab gu) 0)
+     <> (if cano then qtot - nth (nth i ks O) msqn 0 else nth (nth i ks O) msqn 0) ->
+     Pn ks ph p = r0 R) ->
+  ttns_qn_valid st (at_path R path (update_2site i m Nn Pn) t) (qat_path path (qset_child i qnew) g) qtot.
+Proof. exact ttns_two_site_update_valid. Qed.
+Print Assumptions C06_ttns_two_site_update_valid.
+
+(* tree masks: get_qnmask(node, include_parent=False / True) *)
+Theorem C06_ttns_mask1_meaning : forall (qtot : Z) sg (q : list Z) gs ks ph p,
+  @tmask1 ZLab qtot sg q gs ks ph p = true <-> sumlab gs ks + sigsum sg ph = nth p q 0.
+Proof. exact tmask1_meaning. Qed.
+Print Assumptions C06_ttns_mask1_meaning.
+
+Theorem C06_ttns_mask2_meaning : forall (qtot : Z) sgn gsn sgp (qp : list Z) gso ksn phn kso php pp,
+  @tmask2 ZLab qtot sgn gsn sgp qp gso ksn phn kso php pp = true <->
+  (sumlab gsn ksn + sigsum sgn phn) + (sumlab gso kso + sigsum sgp php) = nth pp qp 0.
+Proof. exact tmask2_meaning. Qed.
+Print Assumptions C06_ttns_mask2_meaning.
+
+Theorem C06_ttns_mask1_components : forall k (qtot : list Z) sg q gs ks ph p,
+  @tmask1 VLab qtot sg q gs ks ph p = true ->
+  @tmask1 ZLab (comp k qtot) (map (map (comp k)) sg) (map (comp k) q) (map (qmap (comp k)) gs) ks ph p = true.
+Proof. exact tmask1_comp. Qed.
+Print Assumptions C06_ttns_mask1_components.
+
+(* writing ANY tensor that vanishes outside the one-site mask at any node keeps the tree's labels valid: this is what
+   makes tree DMRG (one-site) and the VMF parameter packing sector preserving *)
+Theorem C06_ttns_mask_update_valid : forall (R : CRing) path (T' : tens R) (t : ttree R) g st qtot u gu su,
+  ttns_qn_valid st t g qtot ->
+  subtree R path t = Some u -> qsubtree path g = Some gu -> ssubtree path st = Some su ->
+  (forall ks ph p, @tmask1 ZLab qtot (match su with SNode sg _ => sg end) (qlab gu) (qch gu) ks ph p = false -> T' ks ph p = r0 R) ->
+  ttns_qn_valid st (at_path R path (set_tensor T') t) (qat_path path (fun x => x) g) qtot.
+Proof. exact ttns_mask_update_valid. Qed.
+Print Assumptions C06_ttns_mask_update_valid.
+
+(* multi-component labels on trees: corollaries per component *)
+Theorem C06_ttns_add_valid_multi : forall (R : CRing) nc ca cb (a b : ttree R) st ga gb qtot,
+  ttns_qn_validV nc st a ga qtot -> ttns_qn_validV nc st b gb qtot -> tshape R a = tshape R b ->
+  ttns_qn_validV nc st (tadd_coeff R ca cb a b) (@qadd VLab ga gb) qtot.
+Proof. exact tadd_validV. Qed.
+Print Assumptions C06_ttns_add_valid_multi.
+
+Theorem C06_ttns_scale_valid_multi : forall (R : CRing) nc c (t : ttree R) st g qtot,
+  ttns_qn_validV nc st t g qtot -> ttns_qn_validV nc st (tscale R c t) g qtot.
+Proof. exact tscale_validV. Qed.
+Print Assumptions C06_ttns_scale_valid_multi.
+
+Theorem C06_ttno_apply_moves_sector_multi : forall (R : CRing) nc (t : ttree R) (o : otree R) st g go qtot qop,
+  ttns_qn_validV nc st t g qtot -> ovalidV nc st o go -> odim R o = 1%nat -> qlab go = [qop] -> tshape R t = oshape R o ->
+  ttns_qn_validV nc st (tapply R o t) (@qapply VLab g go) (zipz Z.add qtot qop).
+Proof. exact tapply_moves_sectorV. Qed.
+Print Assumptions C06_ttno_apply_moves_sector_multi.
 
 (* ---------------------------------------------------------------- non-vacuity *)
 Definition ex6_sigs : list (list Z) := [[0; 1]; [0; 1]; [0; 1]].
